@@ -52,7 +52,7 @@ func (c Case) expand() Case {
 }
 
 var names = []string{"a", "b", "c", "d"}
-var shredLeaves = []string{"bool", "int8", "int16", "int32", "int64", "float", "double", "string", "binary", "date", "uuid", "ts", "tsntz", "tsns", "tsntzns", "time", "dec4", "dec8", "dec16"}
+var shredLeaves = []string{"bool", "int8", "int16", "int32", "int64", "float", "double", "string", "binary", "date", "uuid", "ts", "tsntz", "tsns", "tsntzns", "time", "dec4", "dec8", "dec16", "dec16b"}
 
 func genSN(t *rapid.T, depth int) SN {
 	if depth < 2 {
@@ -124,6 +124,8 @@ func (n SN) node() parquet.Node {
 		return parquet.Decimal(2, 18, parquet.Int64Type)
 	case "dec16":
 		return parquet.Decimal(2, 38, parquet.FixedLenByteArrayType(16))
+	case "dec16b":
+		return parquet.Decimal(2, 38, parquet.ByteArrayType) // variable length two's complement
 	}
 	panic("bad shred node " + n.K)
 }
@@ -168,7 +170,11 @@ func genVV(t *rapid.T, depth int) VV {
 			return v
 		}
 	}
-	k := valueKinds[rapid.IntRange(0, len(valueKinds)-1).Draw(t, "prim")]
+	return genPrim(t, valueKinds[rapid.IntRange(0, len(valueKinds)-1).Draw(t, "prim")])
+}
+
+// genPrim draws a primitive value of the given kind.
+func genPrim(t *rapid.T, k string) VV {
 	v := VV{K: k}
 	switch k {
 	case "bool":
@@ -216,9 +222,48 @@ func genVV(t *rapid.T, depth int) VV {
 		} else {
 			b[15] = 0
 		}
+		if rapid.Bool().Draw(t, "d16small") {
+			// small magnitudes (1-3 significant bytes, sign-extended): where the minimal
+			// two's complement form of a byte array decimal is short
+			k := rapid.IntRange(1, 3).Draw(t, "d16bytes")
+			for i := k; i < 16; i++ {
+				b[i] = b[15]
+			}
+		}
 		v.B, v.Scale = b, rapid.IntRange(2, 3).Draw(t, "scale")
 	}
 	return v
+}
+
+// genFollowing draws a value shaped like the shredding schema (so that typed_value
+// columns are actually used), with random departures: a field of another kind, a
+// missing or extra field.
+func genFollowing(t *rapid.T, n *SN, depth int) VV {
+	if n == nil || rapid.IntRange(0, 5).Draw(t, "depart") == 0 {
+		return genVV(t, depth)
+	}
+	switch n.K {
+	case "list":
+		v := VV{K: "array"}
+		for k := rapid.IntRange(0, 4).Draw(t, "flen"); k > 0; k-- {
+			v.L = append(v.L, genFollowing(t, n.El, depth+1))
+		}
+		return v
+	case "object":
+		v := VV{K: "object"}
+		for i := range n.F {
+			if rapid.IntRange(0, 4).Draw(t, "fhas") != 0 {
+				v.F = append(v.F, VF{Name: n.F[i].Name, V: genFollowing(t, &n.F[i].N, depth+1)})
+			}
+		}
+		if rapid.IntRange(0, 3).Draw(t, "fresid") == 0 {
+			v.F = append(v.F, VF{Name: "resid", V: genVV(t, depth+1)})
+		}
+		return v
+	case "dec16b":
+		return genPrim(t, "dec16")
+	}
+	return genPrim(t, n.K)
 }
 
 func genCase(t *rapid.T) Case {
@@ -229,7 +274,11 @@ func genCase(t *rapid.T) Case {
 	}
 	n := rapid.IntRange(1, kit.Pick(12, 60)).Draw(t, "nvalues")
 	for i := 0; i < n; i++ {
-		c.Values = append(c.Values, genVV(t, 0))
+		if c.Shred != nil && rapid.Bool().Draw(t, "follow") {
+			c.Values = append(c.Values, genFollowing(t, c.Shred, 0))
+		} else {
+			c.Values = append(c.Values, genVV(t, 0))
+		}
 	}
 	if rapid.IntRange(0, 3).Draw(t, "nested") == 0 {
 		c.Nest = rapid.IntRange(1, 3).Draw(t, "nest")
